@@ -461,6 +461,15 @@ func lineOf(r *vproto.Rng, big bool) (string, []ip) {
 	}
 }
 
+// scalePts multiplies every coordinate by f (a power of two: exact, and the Rat model stays exact)
+func scalePts(ps []geom.Point, f float64) []geom.Point {
+	r := make([]geom.Point, len(ps))
+	for i, p := range ps {
+		r[i] = geom.Point{X: p.X * f, Y: p.Y * f}
+	}
+	return r
+}
+
 func gen(seed uint64, tier string) {
 	out := bufio.NewWriter(os.Stdout)
 	defer out.Flush()
@@ -513,7 +522,7 @@ func gen(seed uint64, tier string) {
 		84.03, 628.63, 115.31, 645.31, 118.75, 681.96, 109.94, 704.43, 84.39, 715.17, 60.20, 716.24, 42.37, 703.14, 34.64, 675.16,
 		46.31, 658.05, 69.50, 645.16, 85.68, 651.96, 98.78, 669.93, 92.84, 691.98, 68.07, 699.21, 72.58, 676.59)))
 
-	n := 6000
+	n := 5000
 	big := false
 	// smooth long runs: few but long cases (the exact model costs O(run^2) rational distance tests per run)
 	smoothLens := []int{200, 260, 330, 420, 560, 640, 700}
@@ -547,6 +556,41 @@ func gen(seed uint64, tier string) {
 		cls, ps, tol := smoothCase(r, m)
 		emit(cls, tol, geom.LineString(toPath(ps)))
 	}
+	// vertex and member counts around 64 / 128 (/ 1024 / 2048 in the thorough tier), one level at a time
+	{
+		sizes := []int{63, 64, 65, 66, 127, 128, 129, 130}
+		if tier == "thorough" {
+			sizes = append(sizes, 255, 256, 257, 1023, 1024, 1025, 2047, 2048, 2049)
+		}
+		for _, m := range sizes {
+			ps, tol := smoothArc(r, m)
+			emit("size", tol, geom.LineString(toPath(ps)))
+			if m <= 1025 {
+				emit("size", 1e6, geom.LineString(toPath(ps))) // one segment replaces everything
+			}
+		}
+		for _, m := range []int{64, 65, 128, 129} {
+			ml := make(geom.MultiLineString, m)
+			pg := geom.Polygon{P(-400, -400, 400, -400, 400, 400, 0, 420, -400, 400, -400, -400)}
+			for i := range ml {
+				x := float64(i%20)*30 - 300
+				y := float64(i/20)*30 - 300
+				ml[i] = geom.LineString(P(x, y, x+4, y+1, x+8, y, x+12, y+5))
+				if i > 0 {
+					pg = append(pg, P(x, y, x+4, y+1, x+8, y, x+5, y+6, x, y))
+				}
+			}
+			emit("size", 1.5, ml)
+			emit("size", 1.5, pg)
+			mp := make(geom.MultiPolygon, m)
+			for i := range mp {
+				x := float64(i%20) * 30
+				y := float64(i/20) * 30
+				mp[i] = geom.Polygon{P(x, y, x+9, y+1, x+18, y, x+19, y+9, x+18, y+18, x, y+18, x, y)}
+			}
+			emit("size", 1.5, mp)
+		}
+	}
 	// a smooth ring with a hole, and a multi-line string with a long smooth member
 	{
 		ps, tol := smoothArc(r, 300)
@@ -563,7 +607,13 @@ func gen(seed uint64, tier string) {
 			if cls == "gp" && tol == 0 && r.Chance(0.8) {
 				tol = []float64{1.5, 3.5, 5, 7.5, 12}[r.Intn(5)] // tol 0 keeps every vertex of a line in general position
 			}
-			emit(cls, tol, geom.LineString(toPath(ps)))
+			if r.Chance(0.08) {
+				// the same shapes at very small and very large coordinate scales (absolute thresholds)
+				f := math.Ldexp(1, []int{-30, -24, -20, 20, 24, 30}[r.Intn(6)])
+				emit(cls+"@scaled", tol*f, geom.LineString(scalePts(toPath(ps), f)))
+			} else {
+				emit(cls, tol, geom.LineString(toPath(ps)))
+			}
 		case k < 14:
 			m := []int{0, 1, 2, 2, 3, 4}[r.Intn(6)]
 			ml := make(geom.MultiLineString, m)
@@ -685,20 +735,127 @@ func nVertices(g geom.Geom) int {
 	return n
 }
 
-func simplifyOne(g geom.Geom, tol float64) string {
+// ---- generic probes (aliasing / shared backing arrays / address-keyed state / late check)
+
+var sentinel = geom.Point{X: 12345.5, Y: -54321.25}
+
+const spare = 8
+
+// flatten rebuilds g so that all its members are consecutive windows of ONE flat buffer with spare
+// capacity: member k is buf[a:b] with cap reaching to the end of the buffer (over the storage of
+// the following members and a tail of sentinel points). Empty members alternate between nil and an
+// empty slice with capacity. The whole buffer is compared bit for bit after the calls.
+func flatten(g geom.Geom) (geom.Geom, []geom.Point) {
+	total := nVertices(g)
+	buf := make([]geom.Point, 0, total+spare)
+	empties := 0
+	type span struct {
+		a, b  int
+		isNil bool
+	}
+	// two passes: first lay out, then slice the final buffer (append may not move it: cap is exact)
+	var spans []span
+	add := func(ps []geom.Point) {
+		a := len(buf)
+		buf = append(buf, ps...)
+		isNil := false
+		if len(ps) == 0 {
+			empties++
+			isNil = empties%2 == 1
+		}
+		spans = append(spans, span{a, len(buf), isNil})
+	}
+	switch t := g.(type) {
+	case geom.LineString:
+		add(t)
+	case geom.MultiLineString:
+		for _, l := range t {
+			add(l)
+		}
+	case geom.Polygon:
+		for _, l := range t {
+			add(l)
+		}
+	case geom.MultiPolygon:
+		for _, pg := range t {
+			for _, l := range pg {
+				add(l)
+			}
+		}
+	default:
+		return g, nil
+	}
+	for k := 0; k < spare; k++ {
+		buf = append(buf, sentinel)
+	}
+	k := 0
+	next := func() []geom.Point {
+		sp := spans[k]
+		k++
+		if sp.isNil {
+			return nil
+		}
+		return buf[sp.a:sp.b] // cap(buf)-sp.a: spare capacity over everything behind it
+	}
+	switch t := g.(type) {
+	case geom.LineString:
+		return geom.LineString(next()), buf
+	case geom.MultiLineString:
+		r := make(geom.MultiLineString, len(t))
+		for i := range t {
+			r[i] = next()
+		}
+		return r, buf
+	case geom.Polygon:
+		r := make(geom.Polygon, len(t))
+		for i := range t {
+			r[i] = next()
+		}
+		return r, buf
+	case geom.MultiPolygon:
+		r := make(geom.MultiPolygon, len(t))
+		for i := range t {
+			r[i] = make(geom.Polygon, len(t[i]))
+			for j := range t[i] {
+				r[i][j] = next()
+			}
+		}
+		return r, buf
+	}
+	return g, buf
+}
+
+func sameBits(a, b []geom.Point) bool {
+	if len(a) != len(b) {
+		return false
+	}
+	for i := range a {
+		if math.Float64bits(a[i].X) != math.Float64bits(b[i].X) || math.Float64bits(a[i].Y) != math.Float64bits(b[i].Y) {
+			return false
+		}
+	}
+	return true
+}
+
+// simplifyOne: `ok <answer> same|mutated stable|unstable [members <GEOM>] [again <GEOM>]`
+//
+//	same/mutated    the flat input buffer (spare capacity and sentinels included) before vs after ALL calls
+//	stable/unstable the first answer re-read after the later calls (late check)
+//	members         every member simplified on its own (fresh copies)
+//	again           the identical call repeated after the operand was changed IN PLACE (x and y of
+//	                every vertex swapped: same addresses, same lengths); judged against the swapped input
+func simplifyOne(g0 geom.Geom, tol float64) string {
+	g, buf := flatten(g0)
 	s, isS := g.(geom.Simplifier)
 	if !isS {
 		return "badgeom"
 	}
-	saved := vproto.GeomToks(cloneGeom(g))
+	saved := append([]geom.Point(nil), buf...)
 	o := s.Simplify(tol)
-	same := "same"
-	if vproto.GeomToks(g) != saved {
-		same = "mutated"
-	}
-	res := "ok " + vproto.GeomToks(o) + " " + same
+	first := vproto.GeomToks(o)
+	res := ""
 	// members simplified on their own (independence of members of multi-geometries)
-	switch t := g.(type) {
+	switch t := g0.(type) {
 	case geom.MultiLineString:
 		m := make(geom.MultiLineString, len(t))
 		for i := range t {
@@ -712,7 +869,29 @@ func simplifyOne(g geom.Geom, tol float64) string {
 		}
 		res += " members " + vproto.GeomToks(m)
 	}
-	return res
+	same := "same"
+	if !sameBits(buf, saved) {
+		same = "mutated"
+	}
+	if nVertices(g) <= 80 {
+		for i := range buf {
+			buf[i].X, buf[i].Y = buf[i].Y, buf[i].X
+		}
+		swapped := append([]geom.Point(nil), buf...)
+		o2 := s.Simplify(tol)
+		res += " again " + vproto.GeomToks(o2)
+		if !sameBits(buf, swapped) {
+			same = "mutated"
+		}
+		for i := range buf {
+			buf[i].X, buf[i].Y = buf[i].Y, buf[i].X
+		}
+	}
+	stable := "stable"
+	if vproto.GeomToks(o) != first {
+		stable = "unstable"
+	}
+	return "ok " + first + " " + same + " " + stable + res
 }
 
 func worker() {
